@@ -219,6 +219,11 @@ func genTx(pr *histProfile) func(t *rapid.T) hTx {
 }
 
 func genParamValue(t *rapid.T, key string) string {
+	if key == "pos/StakeDenom" {
+		// the stake denomination is never changed to another valid denomination: every token amount in
+		// the statements is in the stake denomination
+		return rapid.SampledFrom([]string{`"upokt"`, "{malformed", `7`}).Draw(t, "pdenom")
+	}
 	switch rapid.IntRange(0, 5).Draw(t, "pvshape") {
 	case 0:
 		return "{malformed"
